@@ -52,6 +52,10 @@ def strings(dialect):
     cs = charset(dialect)
     ok = lambda s: all(c in cs for c in s)
     pool = [s for s in HAZARD_STRINGS if ok(s)]
+    # every lexeme of C17's curated list as a string *value*: whatever a decoder
+    # could take for a number, date, keyword or delimiter has to be quoted
+    from props import c17
+    lexemes = sorted({s for s in c17.CURATED if ok(s)} - set(pool))
     words = st.lists(st.sampled_from(["alpha", "beta", "x", "A1", "foo_bar", "-",
                                       "1", "N/A", "the", "quick-brown", "a,b"]),
                      min_size=1, max_size=30).map(" ".join)
@@ -68,6 +72,7 @@ def strings(dialect):
     return st.one_of(
         st.sampled_from(pool),
         st.sampled_from(pool),
+        st.sampled_from(lexemes),
         dashy,
         st.text(alphabet=cs, max_size=12),
         st.text(alphabet="abAB01_-+.:#/ '\"\n\t", max_size=8),
